@@ -186,6 +186,17 @@ Proof.
   rewrite Hm. split; [assumption|]. unfold minted in Hm. lia.
 Qed.
 
+(* nothing lost: the two parts together are the whole provision the invocation is due *)
+Theorem mint_total_is_provision i o :
+  0 <= mi_fee_supply i -> 0 <= mi_bond_supply i -> 0 <= mi_ratio i <= P -> 0 <= secs_of i ->
+  mint_fn i = Some o -> provision_of i = Some (minted o).
+Proof.
+  intros Hf Hb Hr Hs0 H.
+  destruct (mint_fn_spec i o Hf Hb Hr Hs0 H) as (annual & block & rate & Ea & _ & Eb & Hm & _).
+  unfold provision_of. unfold total_in in Ea. rewrite Ea. cbn [obind].
+  unfold secs_of in Eb. rewrite Eb. rewrite Hm. reflexivity.
+Qed.
+
 (* Regression witness: before the fix (no clamp) a gap above one year passed the cap. *)
 Definition mint_fn_prefix_unclamped (i : mint_in) : option Z :=
   match chk_int (mi_bond_supply i + mi_fee_supply i) with
